@@ -82,6 +82,8 @@ pub struct CallRec {
     pub had_errors: Option<bool>,
     /// latin1_byte_compatible_up_to(src) asked just before the call
     pub lc: Option<Option<usize>>,
+    /// max_utf8_buffer_length / …_without_replacement / max_utf16_buffer_length for `n`, before the call
+    pub q: Option<(Option<usize>, Option<usize>, Option<usize>)>,
     /// bytes of the guard bands / tail beyond `written` that were modified (C06/C18 oracles)
     pub guard_broken: bool,
 }
@@ -110,8 +112,16 @@ pub fn one_call(
         units16: Vec::new(),
         had_errors: None,
         lc: None,
+        q: None,
         guard_broken: false,
     };
+    {
+        let dref = std::panic::AssertUnwindSafe(&*d);
+        let n = src.len();
+        if let Ok(v) = catch(move || (dref.max_utf8_buffer_length(n), dref.max_utf8_buffer_length_without_replacement(n), dref.max_utf16_buffer_length(n))) {
+            rec.q = Some(v);
+        }
+    }
     {
         let dref = std::panic::AssertUnwindSafe(&*d);
         let srcv = src.to_vec();
@@ -246,9 +256,12 @@ pub struct Plan {
     pub stream: Vec<u8>,
     /// chunk end positions, non-decreasing, last == stream.len(); repeated values = empty chunks
     pub cuts: Vec<usize>,
-    /// capacities used cyclically, one per call
+    /// capacities used cyclically, one per call; the value `QUERY_CAP` means "whatever the matching
+    /// max_*_buffer_length* query returns for this call" (C07)
     pub caps: Vec<usize>,
 }
+
+pub const QUERY_CAP: usize = usize::MAX;
 
 pub fn min_cap(sink16: bool) -> usize {
     if sink16 {
@@ -280,6 +293,17 @@ pub fn run_plan(p: &Plan, fill: u8) -> Outcome {
         loop {
             let mut cap = p.caps[capi % p.caps.len()];
             capi += 1;
+            if cap == QUERY_CAP {
+                let n = chunk.len() - off;
+                let q = if p.sink16 {
+                    d.max_utf16_buffer_length(n)
+                } else if p.repl {
+                    d.max_utf8_buffer_length(n)
+                } else {
+                    d.max_utf8_buffer_length_without_replacement(n)
+                };
+                cap = q.unwrap_or(1 << 20);
+            }
             if stuck >= 2 && cap < min_cap(p.sink16) {
                 cap = min_cap(p.sink16);
             }
@@ -337,6 +361,10 @@ pub fn show_calls(calls: &[CallRec], sink16: bool) -> String {
                     Some(n) => s.push_str(&format!(",lc={}", n)),
                     None => s.push_str(",lc=-"),
                 }
+            }
+            if let Some((a, b, cc)) = c.q {
+                let f = |x: Option<usize>| x.map(|v| v.to_string()).unwrap_or_else(|| "-".into());
+                s.push_str(&format!(",q={}/{}/{}", f(a), f(b), f(cc)));
             }
             s
         })
@@ -434,7 +462,7 @@ pub fn oracles(out: &mut Out, p: &Plan, o: &Outcome, props: &[&str]) {
     let lhs = plan_lhs(p);
     out.oracle_evals += 1;
     let minc = min_cap(p.sink16);
-    let all_min = p.caps.iter().all(|&c| c >= minc);
+    let all_min = o.calls.iter().all(|c| c.cap >= minc);
     // C06: bounds, guard bands, panics
     let mut consumed = 0usize;
     for (i, c) in o.calls.iter().enumerate() {
@@ -480,6 +508,14 @@ pub fn oracles(out: &mut Out, p: &Plan, o: &Outcome, props: &[&str]) {
         consumed += c.read;
     }
     let _ = consumed;
+    // C07: a destination as large as the matching query never yields OutputFull
+    if want("C07") && p.caps.iter().all(|&c| c == QUERY_CAP) {
+        for (i, c) in o.calls.iter().enumerate() {
+            if c.res == Res::OutputFull {
+                out.fail("C07", &lhs, format!("call#{} OutputFull although cap={} is the value of the matching max_*_buffer_length* query for {} bytes", i, c.cap, c.n));
+            }
+        }
+    }
     // C19: latin1_byte_compatible_up_to is exact (checked against fresh decoders: it
     // answers Some only in a neutral state, where a fresh decoder behaves identically)
     if want("C19") {
@@ -791,7 +827,7 @@ pub fn emit(out: &mut Out, p: &Plan, props: &[&str]) {
     let o = run_plan(p, 0);
     // the model states the contract for capacities at or above the documented
     // minimum; below it only the bounds oracles apply
-    if p.caps.iter().all(|&c| c >= min_cap(p.sink16)) {
+    if o.calls.iter().all(|c| c.cap >= min_cap(p.sink16)) {
         let lhs = op_lhs(p, &o.calls);
         out.op(lhs, format!("ok {}", ident(o.final_enc)));
     }
@@ -1049,6 +1085,7 @@ fn props_for(prop: &str) -> Option<Vec<&'static str>> {
         "C10" => Some(vec!["C10"]),
         "C18" => Some(vec!["C18"]),
         "C19" => Some(vec!["C19"]),
+        "C07" => Some(vec!["C07"]),
         _ => None,
     }
 }
@@ -1090,7 +1127,7 @@ pub fn generate(prop: &str, out: &mut Out, thorough: bool, seed: u64) -> bool {
                 }
             };
             let cuts = gen_cuts(&mut rng, stream.len());
-            let caps = gen_caps(&mut rng, sink16, prop == "C06");
+            let caps = if prop == "C07" && rng.chance(3, 4) { vec![QUERY_CAP] } else { gen_caps(&mut rng, sink16, prop == "C06") };
             let p = Plan { enc: e, bom, sink16, repl, stream, cuts, caps };
             emit(out, &p, &props);
         }
@@ -1157,7 +1194,7 @@ pub fn plan_from_dec(toks: &[&str]) -> Option<Plan> {
 }
 
 pub fn replay(toks: &[&str], out: &mut Out) -> bool {
-    let all = ["C01", "C02", "C05", "C06", "C08", "C09", "C10", "C18", "C19"];
+    let all = ["C01", "C02", "C05", "C06", "C07", "C08", "C09", "C10", "C18", "C19"];
     match toks[0] {
         "decplan" => {
             if let Some(p) = parse_plan(toks) {
